@@ -503,7 +503,7 @@ fn make(tier: &str, seed: u64) -> Vec<Box<dyn Harness>> {
                 continue;
             }
             for k in 1..=(if thorough { 3 } else { 2 }) {
-                if walks(t, s, k * t.n, walk_cap).is_some() {
+                if (thorough || t.m() <= 6) && walks(t, s, k * t.n, walk_cap).is_some() {
                     v.push(Box::new(Ksp { topo: t.clone(), src: s, k }));
                 }
             }
